@@ -273,6 +273,157 @@ theorem chain_volume_is_union (acc : Nat) (h3 : 3 ≤ acc) (m : Set α → ℝ) 
   simp [chainValue]
 end chain
 
+/-! ## a straight-line tree with the root in the middle: two arms leaving the root in opposite directions -/
+section twoarm
+variable {α : Type}
+
+/-- root 0; right arm = nodes `1..a` (a chain), left arm = nodes `a+1..a+b` (a chain); `a, b ≥ 1` -/
+def twoArmRose (a b : ℕ) : Rose := .node 0 [chainRose 1 (a - 1), chainRose (a + 1) (b - 1)]
+
+/-- the ingredients the code computes at each node when volumes are measured by `m`: the root sees both first
+compartments (and the cone-pair term `(F_R0 ∩ F_L0) \ S_0`); a node `i` of the right arm (`1 ≤ i ≤ a`) is node `i` of
+the chain `R`, a node `a + j` of the left arm is node `j` of the chain `L` -/
+def twoArmTerms (m : Set α → ℝ) (R FR L FL : ℕ → Set α) (a : ℕ) : Int → List Int → Terms ℝ :=
+  fun i kids =>
+    if i = 0 then
+      ⟨m (R 0), m (FR 0) + m (FL 0), m (R 0 ∩ FR 0) + m (R 0 ∩ FL 0), m (R 1 ∩ FR 0) + m (L 1 ∩ FL 0),
+       m (R 0 ∩ R 1) + m (R 0 ∩ L 1), m ((FR 0 ∩ FL 0) \ R 0)⟩
+    else if i.toNat ≤ a then chainTerms m R FR i kids
+    else chainTerms m L FL (i - a) kids
+
+/-- the sum over a chain only looks at the per-node quantity at the ids `i..i+k` of the chain -/
+theorem sumRose_chainRose_congr (g g' : Int → List Int → ℝ) :
+    ∀ (k i : ℕ), (∀ j, j ≤ k → ∀ ks, g ((i + j : ℕ) : Int) ks = g' ((i + j : ℕ) : Int) ks) →
+      sumRose g (chainRose i k) = sumRose g' (chainRose i k) := by
+  intro k
+  induction k with
+  | zero =>
+    intro i h
+    have := h 0 (le_refl _) []
+    simpa [chainRose, sumRose, sumRoseL] using this
+  | succ k ih =>
+    intro i h
+    simp only [chainRose, sumRose, sumRoseL, List.map_cons, List.map_nil]
+    rw [ih (i+1) (fun j hj ks => by
+      have := h (j+1) (by omega) ks
+      rwa [show i + 1 + j = i + (j+1) by omega])]
+    have := h 0 (by omega) [(chainRose (i+1) k).id]
+    simp only [Nat.add_zero] at this
+    rw [this]
+
+/-- the chain `S`, `F` re-indexed to start at id `o` has the terms of the shifted sets -/
+theorem chainTerms_shift (m : Set α → ℝ) (S F : ℕ → Set α) (o n : ℕ) (ks : List Int) :
+    chainTerms m S F (((o + n : ℕ) : Int) - (o : Int)) ks
+      = chainTerms m (fun j => S (j - o)) (fun j => F (j - o)) ((o + n : ℕ) : Int) ks := by
+  have e : (((o + n : ℕ) : Int) - (o : Int)) = ((n : ℕ) : Int) := by push_cast; ring
+  have e1 : o + n - o = n := by omega
+  have e2 : o + n + 1 - o = n + 1 := by omega
+  rw [e]
+  cases ks <;> simp only [chainTerms, Int.toNat_natCast, e1, e2]
+
+/-- **C14, analytic levels ≥ 3 on a straight-line tree whose root is in the middle**: when each arm satisfies the
+spacing hypotheses of `chain_union`, the arms share the root sphere (`L 0 = R 0`) and meet nowhere else, the
+reported volume — including the level-5 cone-pair term at the root, which measures an empty set — is the
+measure of the union of all node spheres and connecting frusta. -/
+theorem two_arm_volume_is_union (acc : Nat) (h3 : 3 ≤ acc) (m : Set α → ℝ) (hm : FinAdd m)
+    (R FR L FL : ℕ → Set α) (a b : ℕ) (ha : 1 ≤ a) (hb : 1 ≤ b) (hroot : L 0 = R 0)
+    (hAR : ∀ k, k < a → before R FR k ∩ FR k ⊆ R k) (hBR : ∀ k, k < a → upTo R FR k ∩ R (k+1) ⊆ FR k)
+    (hAL : ∀ k, k < b → before L FL k ∩ FL k ⊆ L k) (hBL : ∀ k, k < b → upTo L FL k ∩ L (k+1) ⊆ FL k)
+    (hI : upTo R FR a ∩ upTo L FL b = R 0)
+    (ids pids : List Int) (h : Represents (twoArmRose a b) ids pids) :
+    treeVolume acc (twoArmTerms m R FR L FL a) ids pids 0 (2 * (twoArmRose a b).size)
+      = m (upTo R FR a ∪ upTo L FL b) := by
+  obtain ⟨a, rfl⟩ : ∃ a', a = a' + 1 := ⟨a - 1, by omega⟩
+  obtain ⟨b, rfl⟩ : ∃ b', b = b' + 1 := ⟨b - 1, by omega⟩
+  have hval : ∀ t : Terms ℝ, t.q = 0 → nodeVal acc t = t.s + t.f - t.p - t.c := by
+    intro t hq
+    by_cases h5 : 5 ≤ acc
+    · rw [node_level5 acc h5, hq]; ring
+    · exact node_level3 acc h3 (by omega) t
+  -- the reported volume is the sum over the nodes
+  have hsum := tree_volume_eq_sum acc (twoArmTerms m R FR L FL (a+1)) ids pids (twoArmRose (a+1) (b+1)) h
+  have hid : (twoArmRose (a+1) (b+1)).id = 0 := by simp [twoArmRose, Rose.id]
+  rw [hid] at hsum
+  rw [hsum]
+  simp only [twoArmRose, sumRose, sumRoseL, List.map_cons, List.map_nil, Nat.add_sub_cancel]
+  -- right arm: ids `1..a+1` carry the chain `R`
+  have hR : sumRose (fun i ks => nodeVal acc (twoArmTerms m R FR L FL (a+1) i ks)) (chainRose 1 a)
+      = (Finset.range (a+1)).sum (fun j => m (R (j+1)))
+        + (Finset.range a).sum (fun j => m (FR (j+1)) - m (R (j+1) ∩ FR (j+1)) - m (R (j+1+1) ∩ FR (j+1))) := by
+    rw [sumRose_chainRose_congr _ (fun i ks => nodeVal acc (chainTerms m R FR i ks)) a 1 ?_,
+      sum_chainRose m R FR acc h3 a 1]
+    · simp only [Nat.add_comm 1]
+    · intro j hj ks
+      simp only [twoArmTerms]
+      rw [if_neg (by omega), if_pos (by omega)]
+  -- left arm: ids `a+2..a+b+2` carry the chain `L`, re-indexed
+  have hL : sumRose (fun i ks => nodeVal acc (twoArmTerms m R FR L FL (a+1) i ks)) (chainRose (a+1+1) b)
+      = (Finset.range (b+1)).sum (fun j => m (L (j+1)))
+        + (Finset.range b).sum (fun j => m (FL (j+1)) - m (L (j+1) ∩ FL (j+1)) - m (L (j+1+1) ∩ FL (j+1))) := by
+    rw [sumRose_chainRose_congr _
+        (fun i ks => nodeVal acc (chainTerms m (fun j => L (j - (a+1))) (fun j => FL (j - (a+1))) i ks)) b (a+1+1) ?_,
+      sum_chainRose m _ _ acc h3 b (a+1+1)]
+    · have e1 : ∀ j, a + 1 + 1 + j - (a + 1) = j + 1 := by intro j; omega
+      have e2 : ∀ j, a + 1 + 1 + j + 1 - (a + 1) = j + 1 + 1 := by intro j; omega
+      simp only [e1, e2]
+    · intro j hj ks
+      simp only [twoArmTerms]
+      rw [if_neg (by omega), if_neg (by omega)]
+      have := chainTerms_shift m L FL (a+1) (1+j) ks
+      rw [show a + 1 + (1 + j) = a + 1 + 1 + j by omega] at this
+      rw [this]
+  rw [hR, hL]
+  -- the root: the cone-pair term measures the empty set
+  have hFR : FR 0 ⊆ upTo R FR (a+1) := by
+    have hmono : ∀ k, before R FR 1 ⊆ before R FR (k+1) := by
+      intro k
+      induction k with
+      | zero => exact subset_rfl
+      | succ k ih =>
+        intro x hx
+        have := ih hx
+        simp only [before, Set.mem_union] at this ⊢
+        tauto
+    intro x hx
+    left
+    exact hmono a (by simp only [before, Set.mem_union]; exact Or.inr hx)
+  have hFL : FL 0 ⊆ upTo L FL (b+1) := by
+    have hmono : ∀ k, before L FL 1 ⊆ before L FL (k+1) := by
+      intro k
+      induction k with
+      | zero => exact subset_rfl
+      | succ k ih =>
+        intro x hx
+        have := ih hx
+        simp only [before, Set.mem_union] at this ⊢
+        tauto
+    intro x hx
+    left
+    exact hmono b (by simp only [before, Set.mem_union]; exact Or.inr hx)
+  have hq : (FR 0 ∩ FL 0) \ R 0 = ∅ := by
+    ext x
+    simp only [Set.mem_sdiff, Set.mem_inter_iff, Set.mem_empty_iff_false, iff_false]
+    rintro ⟨⟨h1, h2⟩, h3⟩
+    have : x ∈ upTo R FR (a+1) ∩ upTo L FL (b+1) := ⟨hFR h1, hFL h2⟩
+    rw [hI] at this
+    exact h3 this
+  have hroot' : nodeVal acc (twoArmTerms m R FR L FL (a+1) 0 [(chainRose 1 a).id, (chainRose (a+1+1) b).id])
+      = m (R 0) + (m (FR 0) + m (FL 0)) - (m (R 0 ∩ FR 0) + m (R 0 ∩ FL 0))
+        - (m (R 1 ∩ FR 0) + m (L 1 ∩ FL 0)) := by
+    simp only [twoArmTerms, if_true]
+    rw [hval _ (by simp only [hq, hm.empty])]
+  -- the set side
+  rw [hm.union_inter, hI, chain_union m hm R FR (a+1) hAR hBR, chain_union m hm L FL (b+1) hAL hBL]
+  simp only [chainValue]
+  rw [Finset.sum_range_succ' (fun i => m (R i)) (a+1),
+    Finset.sum_range_succ' (fun i => m (FR i) - m (R i ∩ FR i) - m (R (i+1) ∩ FR i)) a,
+    Finset.sum_range_succ' (fun i => m (L i)) (b+1),
+    Finset.sum_range_succ' (fun i => m (FL i) - m (L i ∩ FL i) - m (L (i+1) ∩ FL i)) b]
+  rw [hroot', hroot]
+  simp only [zero_add]
+  ring
+end twoarm
+
 /-! ## geometry layer: the lens of two consecutive spheres lies inside the frustum between them -/
 
 /-- squared radius profiles about the axis: sphere 1 at `0`, sphere 2 at `d`, frustum between -/
